@@ -368,8 +368,11 @@ def run (j : Json) : Except String Json := do
     (if initAgree then [] else ["initial trees differ"]) ++
     (if treesAgree then [] else ["final trees differ"]) ++
     (if modelAns == implAns then [] else ["answers differ"]) ++ notes
-  let bs := branches.eraseDups
-  let sorted := bs.toArray.qsort (· < ·) |>.toList
+  -- one representative branch per case: the rarest kind of lookup it contains
+  let prio : List String := ["supers-dropped", "among-3", "among-2", "tree-virtual", "tree-base", "memo",
+    "exact", "no-match", "no-types"]
+  let rep := (prio.findSome? (fun p =>
+    (branches.find? (fun b => (b.splitOn p).length > 1)))).getD "no-lookup"
   return Json.mkObj [("agree", agree), ("holds", holds), ("model_holds", modelHolds),
     ("wf", tableOK tab),
     ("shape_ok", shapeOK),
@@ -378,7 +381,7 @@ def run (j : Json) : Except String Json := do
         Json.arr #[Json.str p.1, forestToJson p.2])).toArray)).toArray)]),
     ("failing", Json.arr (failingLookups H S kinds 0 refW
         ((List.range kinds.length).map (fun i => (i, [], []))) [] acts implAns).toArray),
-    ("branch", "+".intercalate sorted),
+    ("branch", rep),
     ("why", "; ".intercalate why)]
 
 end Glom.C13.Driver
